@@ -106,6 +106,57 @@ func padHello(h []byte, body int) ([]byte, bool) {
 	return out, true
 }
 
+// unknownKeyShares rewrites the group of every key_share entry (extension 51) to a value no TLS
+// stack knows, or empties the list: a TLS 1.3 server then answers with a HelloRetryRequest. The
+// hello stays well-formed; its server name and ALPN list are unchanged.
+func unknownKeyShares(h []byte, empty bool) ([]byte, bool) {
+	if len(h) < 5+4+2+32+1 {
+		return nil, false
+	}
+	o := 5 + 4 + 2 + 32
+	o += 1 + int(h[o])
+	o += 2 + (int(h[o])<<8 | int(h[o+1]))
+	o += 1 + int(h[o])
+	if o+2 > len(h) {
+		return nil, false
+	}
+	extStart := o
+	end := o + 2 + (int(h[o])<<8 | int(h[o+1]))
+	if end != len(h) {
+		return nil, false
+	}
+	o += 2
+	for o+4 <= end {
+		t := int(h[o])<<8 | int(h[o+1])
+		l := int(h[o+2])<<8 | int(h[o+3])
+		if t == 51 {
+			if !empty {
+				out := append([]byte{}, h...)
+				p := o + 4 + 2
+				for p+4 <= o+4+l {
+					out[p], out[p+1] = 0x4a, 0x4a
+					p += 4 + (int(out[p+2])<<8 | int(out[p+3]))
+				}
+				return out, true
+			}
+			// empty client_shares list: extension data becomes 00 00
+			out := append([]byte{}, h[:o+2]...)
+			out = append(out, 0, 2, 0, 0)
+			out = append(out, h[o+4+l:]...)
+			d := l - 2
+			body := len(out) - 5
+			ne := (int(h[extStart])<<8 | int(h[extStart+1])) - d
+			out[extStart], out[extStart+1] = byte(ne>>8), byte(ne)
+			hs := body - 4
+			out[6], out[7], out[8] = byte(hs>>16), byte(hs>>8), byte(hs)
+			out[3], out[4] = byte(body>>8), byte(body)
+			return out, true
+		}
+		o += 4 + l
+	}
+	return nil, false
+}
+
 func randName(r *hx.Rand) string {
 	labels := 1 + r.Intn(4)
 	var parts []string
@@ -172,6 +223,12 @@ func genCase(r *hx.Rand, big bool) hcase {
 			if p, ok := padHello(h, hx.Pick(r, targets)); ok {
 				h = p
 				kind = "padded"
+			}
+		}
+		if cfg.MaxVersion != tls.VersionTLS12 && r.Intn(4) == 0 {
+			if p, ok := unknownKeyShares(h, r.Intn(2) == 0); ok {
+				h = p
+				kind += "+hrr"
 			}
 		}
 		body := len(h) - 5
